@@ -426,6 +426,18 @@ def desugar_extend(raws, facts):
                     mfr = op_fn(mt["func"])
                     if mfr is not None and mfr["path"].endswith("iterator::Iterator::map") and len(mt["args"]) == 2:
                         it_op, clo_op = mt["args"][0], mt["args"][1]
+            # `iter.map(f).for_each(g)` is `for x in iter { g(f(x)) }` (map is lazy: f runs once per element, right before g)
+            map_fn = None
+            if is_for_each and p is not None and not p["p"]:
+                ds = [d for d in body.defs.get(p["l"], []) if d[0] in ("stmt", "call")]
+                if len(ds) == 1 and ds[0][0] == "call":
+                    mt = ds[0][2]
+                    mfr = op_fn(mt["func"])
+                    if mfr is not None and mfr["path"].endswith("iterator::Iterator::map") and len(mt["args"]) == 2:
+                        fi_ = op_fn(mt["args"][1])
+                        if fi_ is not None and cur.resolve_local(fi_) is not None and cur.resolve_local(fi_).arg_count == 1:
+                            map_fn = mt["args"][1]
+                            it_op = mt["args"][0]
             clo_raw = None
             if clo_op is not None:
                 os_ = mir.origins(body, clo_op)
@@ -470,6 +482,12 @@ def desugar_extend(raws, facts):
             if clo_raw is None:
                 pstm.append({"k": "assign", "place": {"l": l_y, "p": []}, "rv": {"use": {"move": {"l": l_x, "p": []}}}, "line": line, "exp": None, "inl": True})
                 B.append({"cleanup": False, "stmts": pstm, "term": {"k": "goto", "t": Q, "line": line, "exp": None}})
+            elif map_fn is not None:
+                # P: m = f(x) -> P2 (appended behind U): g(&mut clo, m)
+                l_m = new_local("desugared::Mapped")
+                B.append({"cleanup": False, "stmts": pstm,
+                          "term": {"k": "call", "func": copy.deepcopy(map_fn), "args": [{"move": {"l": l_x, "p": []}}],
+                                   "dest": {"l": l_m, "p": []}, "t": base + 5, "unwind": None, "line": line, "exp": None}})
             else:
                 cp = mir.op_place(clo_op)
                 pstm.append({"k": "assign", "place": {"l": l_cref, "p": []}, "rv": {"ref": {"l": cp["l"], "p": list(cp["p"])}, "mut": True}, "line": line, "exp": None, "inl": True})
@@ -484,7 +502,13 @@ def desugar_extend(raws, facts):
             # the extend call becomes `it = into_iter(iterable)` -> header
             blk["term"] = {"k": "call", "func": fnref("core::iter::traits::collect::IntoIterator::into_iter"), "args": [it_op], "dest": {"l": l_it, "p": []},
                            "t": H, "unwind": None, "line": line, "exp": None, "desugared": "extend" if is_extend else "for_each"}
-            if clo_raw is not None:
+            if map_fn is not None and clo_raw is not None:
+                cp = mir.op_place(clo_op)
+                B.append({"cleanup": False, "stmts": [{"k": "assign", "place": {"l": l_cref, "p": []}, "rv": {"ref": {"l": cp["l"], "p": list(cp["p"])}, "mut": True}, "line": line, "exp": None, "inl": True}],
+                          "term": {"k": "call", "func": fnref(clo_raw["path"]), "args": [{"move": {"l": l_cref, "p": []}}, {"move": {"l": l_m, "p": []}}],
+                                   "dest": {"l": l_y, "p": []}, "t": H, "unwind": None, "line": line, "exp": None}})
+                inline_call(raw, base + 5, copy.deepcopy(clo_raw))
+            elif clo_raw is not None:
                 inline_call(raw, P, copy.deepcopy(clo_raw))
             n += 1
     return n
@@ -672,6 +696,107 @@ def desugar_combinators(raws, facts):
                         still_used = True
         if not still_used and cpath in raws and not any(r.get("parent") == cpath or r.get("root") == cpath for r in raws.values()):
             del raws[cpath]
+    return n
+
+
+def specialise_wrapped_closures(raws, facts):
+    """A helper that takes `impl FnOnce(..)` and wraps it in a closure of its own (`queue(move |w| { let r = call(w); .. })`)
+    hides what each caller's closure does behind one shared wrapper body. After the helper was inlined, the wrapper closure is
+    built in the caller with the caller's closure as a captured value: the wrapper body is copied per building site and the
+    captured closure's (small) body is inlined at the `call_once` of that capture. Semantics preserved: the capture is that
+    closure at this site, and call_once runs its body exactly there."""
+    n = 0
+    cur = mir.Program(dict(facts, bodies=list(raws.values())))
+    used = set()
+    for path, raw in list(raws.items()):
+        if not any(b.get("term", {}).get("inlined") for b in raw["blocks"]):
+            continue
+        body = cur.by_path[path]
+        for bi, blk in enumerate(raw["blocks"]):
+            for si, st in enumerate(blk["stmts"]):
+                ag = st.get("rv", {}).get("agg") if st["k"] == "assign" else None
+                if not ag or ag.get("kind") != "closure" or ag.get("closure") not in raws or ag["closure"] == path:
+                    continue
+                C = ag["closure"]
+                inner = {}
+                for k, op in enumerate(ag.get("ops") or []):
+                    os_ = mir.origins(body, op)
+                    if len(os_) != 1:
+                        continue
+                    o = next(iter(os_))
+                    if o[0] == "agg" and len(o) == 3 and o[2] < len(raw["blocks"][o[1]]["stmts"]):
+                        ag2 = raw["blocks"][o[1]]["stmts"][o[2]]["rv"].get("agg")
+                        if ag2 and ag2.get("kind") == "closure" and ag2.get("closure") in raws and ag2["closure"] not in (C, path) \
+                                and len(raws[ag2["closure"]]["blocks"]) < 60:
+                            inner[k] = ag2["closure"]
+                if not inner:
+                    continue
+                c2 = copy.deepcopy(raws[C])
+
+                def single_def(l):
+                    ds = [s_ for b_ in c2["blocks"] for s_ in b_["stmts"] if s_["k"] == "assign" and s_["place"]["l"] == l]
+                    cs = [b_ for b_ in c2["blocks"] if b_["term"]["k"] == "call" and b_["term"]["dest"]["l"] == l]
+                    return ds[0] if len(ds) == 1 and not cs and not ds[0]["place"]["p"] else None
+
+                def captured_field(op, depth=0):
+                    p = mir.op_place(op)
+                    if p is None or depth > 3:
+                        return None
+                    if p["l"] == 1 and p["p"]:
+                        pp = [e for e in p["p"] if e != "deref"]
+                        if len(pp) == 1 and isinstance(pp[0], dict) and "f" in pp[0]:
+                            return pp[0]["f"]
+                        return None
+                    if p["p"]:
+                        return None
+                    d = single_def(p["l"])
+                    if d is None:
+                        return None
+                    rv = d["rv"]
+                    if "use" in rv:
+                        return captured_field(rv["use"], depth + 1)
+                    if "ref" in rv:
+                        return captured_field({"copy": rv["ref"]}, depth + 1)
+                    return None
+                hit = False
+                for cb, cblk in enumerate(list(c2["blocks"])):
+                    t = cblk["term"]
+                    if t["k"] != "call" or len(t["args"]) != 2 or t.get("t") is None:
+                        continue
+                    fr = op_fn(t["func"])
+                    if fr is None or mir.tail2(fr["path"]) not in ("FnOnce::call_once", "FnMut::call_mut", "Fn::call"):
+                        continue
+                    k = captured_field(t["args"][0])
+                    if k is None or k not in inner:
+                        continue
+                    D = raws[inner[k]]
+                    by_ref = D["locals"][1]["ty"].startswith("&")
+                    if by_ref != (mir.tail2(fr["path"]) != "FnOnce::call_once"):
+                        continue
+                    tp = mir.op_place(t["args"][1])
+                    td = single_def(tp["l"]) if tp is not None and not tp["p"] else None
+                    tup = td["rv"].get("agg") if td is not None else None
+                    if not tup or tup.get("kind") != "tuple" or len(tup["ops"]) + 1 != D["arg_count"]:
+                        continue
+                    t["func"] = {"const": {"fn": {"path": D["path"], "resolved": D["path"], "args": [], "devirtualised": fr["path"]}, "ty": "fn"}}
+                    t["args"] = [t["args"][0]] + [copy.deepcopy(o_) for o_ in tup["ops"]]
+                    inline_call(c2, cb, copy.deepcopy(D))
+                    hit = True
+                if not hit:
+                    continue
+                n += 1
+                newp = "%s@%d" % (C, n)
+                c2["path"] = newp
+                c2["specialised_from"] = C
+                raws[newp] = c2
+                ag["closure"] = newp
+                used.add(C)
+    # the shared wrapper body goes when every building site got its own copy
+    for C in used:
+        still = any(st["k"] == "assign" and isinstance(st.get("rv", {}).get("agg"), dict) and st["rv"]["agg"].get("closure") == C
+                    for r_ in raws.values() for b_ in r_["blocks"] for st in b_["stmts"])
+        if not still and C in raws:
+            del raws[C]
     return n
 
 
@@ -1662,6 +1787,10 @@ def inlined_facts(facts, vocab=None):
             break
     sigs = load_sigs()
     info["unbundled"] = (unbundle_params(raws, facts, sigs) + permute_params(raws, facts, sigs)) if sigs else []
+    try:
+        info["wrapped_closures"] = specialise_wrapped_closures(raws, facts)
+    except Exception as e:
+        info["wrapped_closures_error"] = repr(e)
     info["devirtualised"] = devirtualise_closure_calls(raws, facts)
     # separate the paths that the helpers' several returns merged (only in bodies that received an inlining)
     for path in list(raws):
@@ -1743,6 +1872,16 @@ def thread_variants(raw):
     relevant = {l for l in (raw.get("thread_seeds") or []) if _threadable(l)}
     if not relevant:
         return raw
+
+    def _payload_proj(pl):
+        """k for a place `(x as V).k` (exactly one downcast and one field), else None"""
+        pp = pl.get("p") or []
+        if len(pp) == 2 and isinstance(pp[0], dict) and "downcast" in pp[0] and isinstance(pp[1], dict) and "f" in pp[1]:
+            return pp[1]["f"]
+        return None
+
+    def _forget(facts, l):
+        return {k: v for k, v in facts.items() if k != l and not (isinstance(k, tuple) and k[1] == l)}
     changed = True
     while changed:
         changed = False
@@ -1759,6 +1898,19 @@ def thread_variants(raw):
                 if src is not None and not src["p"] and src["l"] in relevant:
                     relevant.add(st["place"]["l"])
                     changed = True
+                # a payload read of a tracked value (`(x as V).k`) that is itself variant-like
+                elif src is not None and _payload_proj(src) is not None and src["l"] in relevant and _threadable(st["place"]["l"]):
+                    relevant.add(st["place"]["l"])
+                    changed = True
+            # ... and, backwards, the variant-like operands a tracked aggregate is built from (`Outer::V(inner)`)
+            for st in blk["stmts"]:
+                if st["k"] == "assign" and not st["place"]["p"] and st["place"]["l"] in relevant and "agg" in st.get("rv", {}):
+                    for op_ in st["rv"]["agg"].get("ops") or []:
+                        p_ = mir.op_place(op_)
+                        if p_ is not None and not p_["p"] and p_["l"] not in relevant and _threadable(p_["l"]) \
+                                and re.sub(r"<.*$", "", raw["locals"][p_["l"]]["ty"]) in _CRATE_ENUMS:
+                            relevant.add(p_["l"])
+                            changed = True
             t = blk["term"]
             if t["k"] == "call" and not t["dest"]["p"] and t["dest"]["l"] not in relevant and t["args"]:
                 fr = op_fn(t["func"])
@@ -1782,22 +1934,29 @@ def thread_variants(raw):
         rv = st.get("rv", {})
         # address taken mutably / partial write: forget
         for key in ("ref", "rawptr"):
-            if key in rv and (rv.get("mut") or key == "rawptr") and rv[key]["l"] in facts:
-                facts = {k: v for k, v in facts.items() if k != rv[key]["l"]}
+            if key in rv and (rv.get("mut") or key == "rawptr") and (rv[key]["l"] in facts or any(isinstance(k, tuple) and k[1] == rv[key]["l"] for k in facts)):
+                facts = _forget(facts, rv[key]["l"])
         if pl["p"]:
-            if pl["l"] in facts and not any(isinstance(e, dict) and "f" in e for e in pl["p"][:0]):
+            if pl["l"] in facts or any(isinstance(k, tuple) and k[1] == pl["l"] for k in facts):
                 # writing through a projection of a tracked local (e.g. a field of the payload) keeps the discriminant
                 # only when the first projection is a downcast/field of the same variant; be conservative: forget
-                facts = {k: v for k, v in facts.items() if k != pl["l"]}
+                facts = _forget(facts, pl["l"])
             return facts
         l = pl["l"]
-        facts = {k: v for k, v in facts.items() if k != l}
+        # (read the source's facts before the destination is forgotten: `x = move x.0` does not occur, but `x = y` may alias)
+        src_facts = facts
+        facts = _forget(facts, l)
         if l not in relevant:
             return facts
         if "agg" in rv:
             v = _variant_of_agg(rv["agg"])
             if v is not None:
                 facts[l] = ("v", v)
+                # what the payload operands are known to be (`Outer::V(Inner::W(..))`): facts on `(l as V).k`
+                for k_, op_ in enumerate(rv["agg"].get("ops") or []):
+                    p_ = mir.op_place(op_)
+                    if p_ is not None and not p_["p"] and p_["l"] in src_facts and src_facts[p_["l"]][0] == "v":
+                        facts[("p", l, k_)] = src_facts[p_["l"]]
         elif "use" in rv:
             op = rv["use"]
             c = op.get("const") if isinstance(op, dict) else None
@@ -1805,18 +1964,25 @@ def thread_variants(raw):
                 facts[l] = ("c", c["val"])
             else:
                 p = mir.op_place(op)
-                if p is not None and not p["p"] and p["l"] in facts:
-                    facts[l] = facts[p["l"]]
+                if p is not None and not p["p"] and p["l"] in src_facts:
+                    facts[l] = src_facts[p["l"]]
+                    for k2, v2 in list(src_facts.items()):
+                        if isinstance(k2, tuple) and k2[1] == p["l"]:
+                            facts[("p", l, k2[2])] = v2
                     if "move" in op and p["l"] != l:
-                        facts.pop(p["l"], None)       # moved-from: the value lives in the destination now
+                        facts = _forget(facts, p["l"])       # moved-from: the value lives in the destination now
+                elif p is not None and _payload_proj(p) is not None and ("p", p["l"], _payload_proj(p)) in src_facts:
+                    facts[l] = src_facts[("p", p["l"], _payload_proj(p))]
         elif "discr" in rv:
             src = rv["discr"]
             if not src["p"] and src["l"] in facts and facts[src["l"]][0] == "v":
                 facts[l] = ("c", facts[src["l"]][1])
+            elif _payload_proj(src) is not None and facts.get(("p", src["l"], _payload_proj(src)), ("", None))[0] == "v":
+                facts[l] = ("c", facts[("p", src["l"], _payload_proj(src))][1])
         return facts
 
     def key(facts):
-        return tuple(sorted(facts.items()))
+        return tuple(sorted(facts.items(), key=repr))
 
     # facts are not carried around a loop: a back edge re-enters the header with no facts (otherwise the first iteration
     # would be peeled off and the loop rules would see two loops)
@@ -1890,7 +2056,9 @@ def thread_variants(raw):
                 known = facts[p["l"]][1]
             if known is not None:
                 tgt = dict((v, bb) for v, bb in t["targets"]).get(known, t["otherwise"])
-                succs.append(("only", tgt, {}))      # resolved: forget, so the paths re-merge behind the decision
+                # resolved: forget, so the paths re-merge behind the decision - except what is known about the payloads
+                # (`Outer::V(Inner::W)`: the arm still has to read which W it carries)
+                succs.append(("only", tgt, {k_: v_ for k_, v_ in facts.items() if isinstance(k_, tuple)}))
             else:
                 for v, bb in t["targets"]:
                     succs.append(("case", bb, dict(facts), v))
@@ -1900,7 +2068,7 @@ def thread_variants(raw):
             d = t["dest"]
             # arguments passed by &mut may be changed by the callee
             if not d["p"]:
-                f2.pop(d["l"], None)
+                f2 = _forget(f2, d["l"])
                 fr = op_fn(t["func"])
                 if fr is not None and d["l"] in relevant and t["args"]:
                     nm = mir.tail2(fr["path"])
@@ -1932,12 +2100,13 @@ def thread_variants(raw):
         elif k in ("drop", "assert"):
             f2 = dict(facts)
             if k == "drop" and not t["place"]["p"]:
-                f2.pop(t["place"]["l"], None)
+                f2 = _forget(f2, t["place"]["l"])
             succs.append(("t", t["t"], f2))
         outs = []
         for s in succs:
             tb, f2 = s[1], s[2]
-            f2 = {} if (b, tb) in back_edges else {l: v for l, v in f2.items() if l in relevant and l in live[tb]}
+            f2 = {} if (b, tb) in back_edges else {l: v for l, v in f2.items()
+                                                   if (l[1] if isinstance(l, tuple) else l) in relevant and (l[1] if isinstance(l, tuple) else l) in live[tb]}
             kk = (tb, key(f2))
             if kk not in nodes:
                 if len(nodes) >= MAX_NODES:
